@@ -1,7 +1,7 @@
 (* Property C17 - theorem list (statements only; proofs live in coq/Seq/SeqProofs.v). *)
 From Coq Require Import NArith List Bool.
 From ZV.Codec Require Import Bytes Block.
-From ZV.Seq Require Import SeqApi SeqProofs.
+From ZV.Seq Require Import SeqApi SeqSpec SeqProofs.
 Import ListNotations.
 Local Open Scope N_scope.
 
